@@ -39,6 +39,7 @@ type FSFile struct {
 }
 
 type FSModel struct {
+	own    map[string]bool
 	nodes  []*FSNode
 	log    []FSEffect
 	files  map[*Cell]*FSFile
@@ -59,7 +60,7 @@ type FSInfo struct {
 var fsErrT types.Type = types.NewNamed(types.NewTypeName(0, nil, "symgo.fsError", nil), types.NewStruct(nil, nil), nil)
 var fsInfoT types.Type = types.NewNamed(types.NewTypeName(0, nil, "symgo.fsInfo", nil), types.NewStruct(nil, nil), nil)
 
-func newFS() *FSModel { return &FSModel{files: map[*Cell]*FSFile{}} }
+func newFS() *FSModel { return &FSModel{files: map[*Cell]*FSFile{}, own: map[string]bool{}} }
 
 func (it *Interp) fsErr(kind, msg string) *IfaceV {
 	return &IfaceV{T: fsErrT, V: &FSErr{msg: it.constString(msg), kind: kind}}
@@ -164,7 +165,6 @@ func (it *Interp) fsMkdirAll(p *StrV) *IfaceV {
 	if e := it.fsFault("mkdirall"); e != nil {
 		return e
 	}
-	it.fsLog("mkdir", true, cp, nil, nil, nil)
 	s, ok := cp.concrete()
 	if !ok {
 		if n := it.fsFind(cp); n != nil {
@@ -173,6 +173,7 @@ func (it *Interp) fsMkdirAll(p *StrV) *IfaceV {
 			}
 			return nil
 		}
+		it.fsLog("mkdir", true, cp, nil, nil, nil)
 		it.fs.nodes = append(it.fs.nodes, &FSNode{path: cp, dir: true})
 		return nil
 	}
@@ -189,6 +190,8 @@ func (it *Interp) fsMkdirAll(p *StrV) *IfaceV {
 		}
 		n := it.fsFind(it.constString(cur))
 		if n == nil {
+			// only directories that did not exist are effects
+			it.fsLog("mkdir", true, it.constString(cur), nil, nil, nil)
 			it.fs.nodes = append(it.fs.nodes, &FSNode{path: it.constString(cur), dir: true})
 		} else if !n.dir {
 			return it.fsErr("notdir", "mkdir "+cur+": not a directory")
@@ -705,6 +708,7 @@ func hTempFile(it *Interp, fn *ssa.Function, a []Value) Value {
 		n.removed = true
 	}
 	it.fs.nodes = append(it.fs.nodes, &FSNode{path: p, data: append([]*Term{}, it.bytesOfSlice(a[1].(*SliceV))...)})
+	it.fs.own[dir+"/"+name] = true
 	return p
 }
 
@@ -727,3 +731,45 @@ func hFSLog(it *Interp, fn *ssa.Function, a []Value) Value {
 	}
 	return it.ctx.BV(uint64(n), 64)
 }
+
+
+// vFSConfined(parent, name string) bool: every mutating effect so far has a cleaned path equal to
+// parent/name or below it (solver-level condition over possibly symbolic path bytes).
+func hFSConfined(it *Interp, fn *ssa.Function, a []Value) Value {
+	parent, _ := a[0].(*StrV).concrete()
+	name, _ := a[1].(*StrV).concrete()
+	root := it.constString(parent + "/" + name).b
+	c := it.ctx
+	all := c.True
+	for _, e := range it.fs.log {
+		if !e.Mut && e.Kind != "open" {
+			continue
+		}
+		for _, p := range []*StrV{e.Path, e.Path2} {
+			if p == nil {
+				continue
+			}
+			// harness-made files directly under parent are not the code's doing
+			if s, ok := p.concrete(); ok && it.fs.own[s] {
+				continue
+			}
+			var inside *Term
+			if len(p.b) < len(root) {
+				inside = c.False
+			} else {
+				eqs := []*Term{}
+				for i := range root {
+					eqs = append(eqs, c.Eq(p.b[i], root[i]))
+				}
+				if len(p.b) > len(root) {
+					eqs = append(eqs, c.Eq(p.b[len(root)], c.BV('/', 8)))
+				}
+				inside = c.And(eqs...)
+			}
+			all = c.And(all, inside)
+		}
+	}
+	return all
+}
+
+func init() { harnessAPI["vFSConfined"] = hFSConfined }
